@@ -7,6 +7,7 @@ import (
 	"fmt"
 	"net/url"
 	"reflect"
+	"regexp"
 	"sort"
 	"strings"
 	"time"
@@ -36,6 +37,11 @@ type c27gen struct {
 	f    func(c *Ctx) (interface{}, error)
 }
 
+// free text as it may arrive from anywhere: plain, unicode, characters JSON escapes, bytes that are not UTF-8
+func c27text(c *Ctx, base string) string {
+	return base + []string{"", "", " plain", " é✓ 한글", " \"quoted\" back\\slash\n\ttab", " <html> & more", " \xff\xfe", " \xed\xa0\x80 half", " nul\x00", " \xc3("}[c.Intn(10)]
+}
+
 func c27point(c *Ctx) base.Point {
 	return base.NewPoint(base.Height(int64(1+c.Intn(500))), base.Round(uint64(c.Intn(4))))
 }
@@ -52,7 +58,7 @@ func c27expels(c *Ctx, point base.Point, nodes []base.LocalNode, n int) ([]base.
 	var ops []base.SuffrageExpelOperation
 	var facts []util.Hash
 	for i := 0; i < n; i++ {
-		f := isaac.NewSuffrageExpelFact(base.RandomAddress("x-"), point.Height()-1, point.Height()+base.Height(int64(c.Intn(5))), "no response")
+		f := isaac.NewSuffrageExpelFact(base.RandomAddress("x-"), point.Height()-1, point.Height()+base.Height(int64(c.Intn(5))), c27text(c, "no response"))
 		op := isaac.NewSuffrageExpelOperation(f)
 		for _, nd := range nodes {
 			_ = op.NodeSign(nd.Privatekey(), hNetworkID, nd.Address())
@@ -180,7 +186,7 @@ func c27gens(nodes []base.LocalNode) []c27gen {
 		m := isaacblock.NewBlockMap()
 		m.SetManifest(manifest(c))
 		for _, t := range []base.BlockItemType{base.BlockItemProposal, base.BlockItemOperations, base.BlockItemOperationsTree, base.BlockItemStates, base.BlockItemStatesTree, base.BlockItemVoteproofs} {
-			if err := m.SetItem(isaacblock.NewBlockMapItem(t, util.UUID().String())); err != nil {
+			if err := m.SetItem(isaacblock.NewBlockMapItem(t, c27text(c, util.UUID().String()))); err != nil {
 				return m, err
 			}
 		}
@@ -366,6 +372,11 @@ func c27gens(nodes []base.LocalNode) []c27gen {
 			}
 			return base.NewBaseState(base.Height(int64(c.Intn(50))), isaac.NetworkPolicyStateKey, isaac.NewNetworkPolicyStateValue(pol), prev, c27hashes(c, 1+c.Intn(2))), nil
 		}},
+		{"state-free-key", func(c *Ctx) (interface{}, error) {
+			pol := isaac.DefaultNetworkPolicy()
+			pol.SetMaxOperationsInProposal(uint64(10 + c.Intn(1000)))
+			return base.NewBaseState(base.Height(int64(c.Intn(50))), c27text(c, "account-"+util.UUID().String()), isaac.NewNetworkPolicyStateValue(pol), h(), c27hashes(c, 1+c.Intn(2))), nil
+		}},
 		{"manifest", func(c *Ctx) (interface{}, error) { return manifest(c), nil }},
 		{"blockmap", func(c *Ctx) (interface{}, error) { return blockmap(c) }},
 		{"suffrage-proof", func(c *Ctx) (interface{}, error) {
@@ -395,7 +406,7 @@ func c27gens(nodes []base.LocalNode) []c27gen {
 			case 1:
 				return isaacnetwork.NewBlockMapRequestHeader(base.Height(int64(c.Intn(100)))), nil
 			case 2:
-				return isaacnetwork.NewStateRequestHeader("k"+util.UUID().String(), h()), nil
+				return isaacnetwork.NewStateRequestHeader(c27text(c, "k"+util.UUID().String()), h()), nil
 			case 3:
 				return isaacnetwork.NewSuffrageProofRequestHeader(base.Height(int64(c.Intn(100)))), nil
 			case 4:
@@ -596,11 +607,11 @@ func c27gens(nodes []base.LocalNode) []c27gen {
 			case 0:
 				return base.NewInStateOperationFixedtreeNode(h(), ""), nil
 			case 1:
-				return base.NewNotInStateOperationFixedtreeNode(h(), "bad operation"), nil
+				return base.NewNotInStateOperationFixedtreeNode(h(), c27text(c, "bad operation")), nil
 			case 2:
-				return base.NewBaseOperationProcessReason("bad operation " + util.UUID().String()), nil
+				return base.NewBaseOperationProcessReason(c27text(c, "bad operation "+util.UUID().String())), nil
 			default:
-				return fixedtree.NewBaseNode(h().String()), nil
+				return fixedtree.NewBaseNode(c27text(c, h().String())), nil
 			}
 		}},
 		{"response-header", func(c *Ctx) (interface{}, error) {
@@ -654,6 +665,32 @@ func c27decode(enc *jsonenc.Encoder, obj interface{}, b []byte) (interface{}, er
 }
 
 // whether the outermost JSON object has a "_hint" member
+var c27hintRx = regexp.MustCompile(`"_hint":"([a-z0-9-]+)-v(\d+)\.(\d+)\.(\d+)"`)
+
+// every "_hint" of the encoding with its patch version raised by 7
+func c27bumpHints(b []byte) []byte {
+	return c27hintRx.ReplaceAllFunc(b, func(m []byte) []byte {
+		sm := c27hintRx.FindSubmatch(m)
+		var patch int
+		fmt.Sscanf(string(sm[4]), "%d", &patch)
+		return []byte(fmt.Sprintf(`"_hint":"%s-v%s.%s.%d"`, sm[1], sm[2], sm[3], patch+7))
+	})
+}
+
+func c27firstDiff(a, b []byte) int {
+	for i := 0; i < len(a) && i < len(b); i++ {
+		if a[i] != b[i] {
+			return i
+		}
+	}
+	return min(len(a), len(b))
+}
+
+func c27around(b []byte, i int) string {
+	lo, hi := max(0, i-30), min(len(b), i+30)
+	return string(b[lo:hi])
+}
+
 func c27topHint(b []byte) bool {
 	var m map[string]json.RawMessage
 	if err := json.Unmarshal(b, &m); err != nil {
@@ -826,6 +863,35 @@ func runC27(c *Ctx) error {
 			}
 			if reflect.TypeOf(obj) != reflect.TypeOf(dec) && reflect.TypeOf(obj) != reflect.PtrTo(reflect.TypeOf(dec)) && reflect.PtrTo(reflect.TypeOf(obj)) != reflect.TypeOf(dec) {
 				fail("C27:type-differs-after-decode", fmt.Sprintf("%T decoded as %T", obj, dec), b1)
+			}
+			// the same encoding under compatible hints (a newer patch version than the registered one): what decodes
+			// must encode to those bytes again
+			if b3 := c27bumpHints(b1); !bytes.Equal(b3, b1) {
+				c.Eval(1)
+				dec3, err := func() (i interface{}, err error) {
+					defer func() {
+						if r := recover(); r != nil {
+							err = fmt.Errorf("panic: %v", r)
+						}
+					}()
+					return c27decode(enc, obj, b3)
+				}()
+				switch {
+				case err != nil:
+					c.Count("compatible-hint", "refused")
+				default:
+					b4, err := enc.Marshal(dec3)
+					switch {
+					case err != nil:
+						fail("C27:reencode-error", "compatible hints: "+err.Error(), b3)
+					case !bytes.Equal(b3, b4):
+						c.Count("compatible-hint", "differs")
+						fail("C27:compatible-hint-not-kept", fmt.Sprintf("encoded under newer patch versions of its hints, decoded, encoded again: %d bytes become %d bytes (first difference at byte %d: %q vs %q)",
+							len(b3), len(b4), c27firstDiff(b3, b4), c27around(b3, c27firstDiff(b3, b4)), c27around(b4, c27firstDiff(b3, b4))), b3)
+					default:
+						c.Count("compatible-hint", "kept")
+					}
+				}
 			}
 			if n == 0 {
 				c.Sample(map[string]interface{}{"kind": g.name, "hint": top, "bytes": len(b1), "valid": valid})
